@@ -418,6 +418,102 @@ def run_cli_part(_):
     return p
 
 
+# ------------------------------------------------------------------------------------------
+# one querent object used for several queries: rejected expressions and queries that fail must leave nothing behind
+HIST_BAD = ['/001001[1:', '/001001[1:x]', '@[1:/001001', '/001001[', '@[2', '/001001[0:1:2:3]', '@[1:2:', '/001001[-',
+            '/001001[2', '@[0]/001001[1:3', '', '/', '001001/', '@[3]']
+HIST_GOOD = ['/001001', '001001', '@[1]/001001', '/001001[0]', '@[::2]>005002', '/001001[1:]', '@[-1]/005002', '/001001[-1]',
+             '/001001/001001', '/063250']
+
+
+def _history_messages():
+    out = []
+    for comp in (False, True):
+        def body(ctx, comp=comp):
+            return S.build_distinct_message(ctx, [G.N7] * 3 + [G.NS], nsub=4, compressed=comp, share_structure=True)[0]
+        ctx, b = tree.replay(body, [])
+        out.append(CC.decoder().process(b))
+    return out
+
+
+def _hist_query(q, msg, expr):
+    from pybufrkit.errors import QueryError, PathExprParsingError
+    try:
+        qr = q.query(msg, expr)
+    except PathExprParsingError:
+        return ('PathExprParsingError',)
+    except QueryError:
+        return ('QueryError',)
+    except Exception as e:
+        return ('exc', type(e).__name__)
+    return ('ok', jsonable_result(dict((i, qr.get_values(i)) for i in qr.subset_indices())))
+
+
+def jsonable_result(d):
+    return repr(sorted(d.items()))
+
+
+def hist_events():
+    return [(0, e) for e in HIST_BAD] + [(m, e) for m in (0, 1) for e in HIST_GOOD]
+
+
+def run_querent_histories(args):
+    """all histories of exactly `length` queries (events = (message, expression), rejected expressions included) on ONE
+    DataQuerent / NodePathParser; every step must answer like a fresh querent does"""
+    from pybufrkit.dataquery import DataQuerent, NodePathParser
+    firsts, length = args
+    p = Partial()
+    msgs = _history_messages()
+    ev = hist_events()
+    golden = {}
+    for m, e in ev:
+        golden[(m, e)] = _hist_query(DataQuerent(NodePathParser()), msgs[m], e)
+        if e in HIST_BAD and golden[(m, e)][0] != 'PathExprParsingError':
+            p.violation('history-golden|rejected-expression-accepted', {'expr': e, 'history': []}, '%r: %r' % (e, golden[(m, e)]))
+        if e in HIST_GOOD[:8] and golden[(m, e)][0] != 'ok':
+            p.violation('history-golden|query-fails', {'expr': e, 'history': []}, '%r: %r' % (e, golden[(m, e)]))
+    for first in firsts:
+        for rest in itertools.product(range(len(ev)), repeat=length - 1):
+            h = (first,) + rest
+            q = DataQuerent(NodePathParser())
+            p.n['exec'] += 1
+            for k, i in enumerate(h):
+                m, e = ev[i]
+                got = _hist_query(q, msgs[m], e)
+                p.n['queries'] += 1
+                if got != golden[(m, e)]:
+                    prev = ev[h[k - 1]][1] if k else None
+                    kind = 'after-rejected' if prev in HIST_BAD else 'after-query'
+                    p.violation('history|%s|%s' % (kind, got[0]), {'history': [list(ev[j]) for j in h[:k + 1]]},
+                                'query %r on message %d after %r on the same querent: %s, a fresh querent gives %s'
+                                % (e, m, [ev[j][1] for j in h[:k]], str(got)[:200], str(golden[(m, e)])[:200]))
+                    break
+                p.outcome((i, got[0]))
+    p.n['nodes'] += p.n['queries'] + 1
+    p.n['edges'] += p.n['queries']
+    return p
+
+
+def replay_history(case):
+    from pybufrkit.dataquery import DataQuerent, NodePathParser
+    msgs = _history_messages()
+    h = [tuple(x) for x in case['history']]
+    if not h:
+        p = run_querent_histories(([], 1))
+        return [{'sig': v['sig'], 'detail': v['detail']} for v in p.viol if v['case'].get('expr') == case.get('expr')]
+    q = DataQuerent(NodePathParser())
+    got = None
+    for m, e in h:
+        got = _hist_query(q, msgs[m], e)
+    m, e = h[-1]
+    gold = _hist_query(DataQuerent(NodePathParser()), msgs[m], e)
+    if got != gold:
+        prev = h[-2][1] if len(h) > 1 else None
+        return [{'sig': 'history|%s|%s' % ('after-rejected' if prev in HIST_BAD else 'after-query', got[0]),
+                 'detail': '%r vs fresh %r' % (got, gold)}]
+    return []
+
+
 def restore(descs, subs, compressed):
     """re-encode the given expected subsets with the other storage form"""
     B, D = S.tables_for(33)
@@ -486,6 +582,8 @@ def run_corpus(args):
 
 
 def replay(part, case):
+    if part == 'querent-histories':
+        return replay_history(case)
     if part == 'cli':
         p = run_cli_part(None)
         return [{'sig': v['sig'], 'detail': v['detail']} for v in p.viol if v['case'] == case]
@@ -533,6 +631,8 @@ def main(tier, seed):
                  and len({pt.count('0') for pt in st[0].split('.')[3].split('/')}) == 1]
     plan.append(('bitmap-u2-same-zero-count', same_zero, dict(nsub=2, compressed=False, vmap=[0, 1])))
     plan.append(('bitmap-u3-diff', list(BM.chain1(0, 2)), dict(nsub=3, compressed=False, vmap=[1, 0, 1])))
+    plan.append(('nested-delayed-u2', list(BM.nested_delayed(2, 2, 1, 2, colliding_only=(tier == 'quick'))),
+                 dict(nsub=2, compressed=False, vmap=[0, 1])))
     plan.append(('bitmap-in-replication', list(BM.wrapped(BM.chain1(0), 2, True)), dict(nsub=1, compressed=False)))
     # the whole slice lattice (start, stop in {-6..6}, step in {1, 2, -1, -2}, integers -6..6) at every single step and as
     # subset selector, over templates with five siblings of one id (more matches than any early exit would keep)
@@ -550,6 +650,13 @@ def main(tier, seed):
         rep.add_part(name, p, bounds=dict(items=len(items), slice_deviations=bound,
                                           slices=len(LATTICE if env.get('lattice') else SLICES) - 1,
                                           selectors=len(LATTICE_SELECTORS if env.get('lattice') else SELECTORS) - 1, **env))
+    ev = hist_events()
+    hl = 3 if tier == 'quick' else 4
+    p = merge_all(run_shards(run_querent_histories, [([i], hl) for i in range(len(ev))]))
+    rep.add_part('querent-histories', p, bounds={'events': len(ev), 'history_length': hl, 'rejected_expressions': HIST_BAD,
+                                                  'queries': HIST_GOOD, 'messages': ['4 subsets uncompressed', '4 subsets compressed']},
+                 rule='every history of queries on one DataQuerent(NodePathParser()) object; each step is compared with the '
+                      'answer of a fresh querent')
     from mc.gen import freeform as F
     if tier == 'quick':
         progs = F.operator_programs(3, 2) + F.focused_programs(4, 2) + F.marker_programs(3, 2)
